@@ -174,6 +174,8 @@ type Effect struct {
 	Val    string // access path of the stored value / arguments
 	In     ssa.Instruction
 	Callee *ssa.Function
+	// Spliced: a call whose callee's body follows on the path (helper inlining)
+	Spliced bool
 }
 
 func (e Effect) String() string {
@@ -599,6 +601,9 @@ func (w *World) enumPaths(fn *ssa.Function, o EnumOpts) EnumResult {
 					}
 					if callee := c.StaticCallee(); callee != nil && (!nf.inl[callee] || sameBinding(callee)) && callee != fn && (w.inlinable(callee) || o.ForceInline != nil && o.ForceInline(callee) && w.inlinableShape(callee)) && (o.Opaque == nil || !o.Opaque(callee)) {
 						// bind the parameters to the caller's argument values (resolved in the caller's context)
+						if keep && len(nf.effects) > 0 && nf.effects[len(nf.effects)-1].In == in {
+							nf.effects = append(append([]Effect(nil), nf.effects[:len(nf.effects)-1]...), func() Effect { e := nf.effects[len(nf.effects)-1]; e.Spliced = true; return e }())
+						}
 						g := nf
 						g.param = make(map[*ssa.Parameter]ssa.Value, len(nf.param)+len(callee.Params))
 						for k2, v := range nf.param {
@@ -733,6 +738,55 @@ func (w *World) inlinableShape(f *ssa.Function) bool {
 	return ok
 }
 
+// sentinelError: v is the load of a package-level variable of the module that is assigned
+// exactly once, in the package initialiser, the result of errors.New / Errorf — never nil.
+func (w *World) sentinelError(v ssa.Value) bool {
+	ld, ok := v.(*ssa.UnOp)
+	if !ok || ld.Op != token.MUL {
+		return false
+	}
+	g, ok := ld.X.(*ssa.Global)
+	if !ok || g.Pkg == nil || !w.InModulePkg(g.Pkg.Pkg) {
+		return false
+	}
+	if w.sentinelMemo == nil {
+		w.sentinelMemo = map[*ssa.Global]bool{}
+		stores := map[*ssa.Global][]*ssa.Store{}
+		for _, p := range w.Prog.AllPackages() {
+			if !w.InModulePkg(p.Pkg) {
+				continue
+			}
+			for _, m := range p.Members {
+				f, ok := m.(*ssa.Function)
+				if !ok {
+					continue
+				}
+				for _, fn := range withClosures(f) {
+					allInstrs(fn, func(in ssa.Instruction) {
+						if st, ok := in.(*ssa.Store); ok {
+							if gg, ok := st.Addr.(*ssa.Global); ok {
+								stores[gg] = append(stores[gg], st)
+							}
+						}
+					})
+				}
+			}
+		}
+		for gg, sts := range stores {
+			if len(sts) != 1 || sts[0].Parent().Name() != "init" {
+				continue
+			}
+			if c, ok := sts[0].Val.(*ssa.Call); ok {
+				n := calleeName(&c.Call)
+				if strings.HasSuffix(n, "errors.New") || strings.HasSuffix(n, "errors.Errorf") || n == "fmt.Errorf" {
+					w.sentinelMemo[gg] = true
+				}
+			}
+		}
+	}
+	return w.sentinelMemo[g]
+}
+
 // statelessCallee: f takes no pointer to a module struct (receiver or parameter) — it
 // cannot touch the shared state the scheduling rules reason about. Used as EnumOpts.Opaque
 // by rules that refer to such helpers (constructors, converters) by name.
@@ -849,6 +903,17 @@ func (w *World) condAtom(v ssa.Value, depth int) (op, l, r string, neg bool, kon
 			if (x.Op.String() == "==" || x.Op.String() == "!=") && isNilConst(w.Resolve(x.X)) && isNilConst(w.Resolve(x.Y)) {
 				b := x.Op.String() == "=="
 				return "", "", "", false, &b
+			}
+			// a sentinel error variable (assigned once, in init, from errors.New/Errorf) compared with nil
+			if x.Op.String() == "==" || x.Op.String() == "!=" {
+				a, bb := w.Resolve(x.X), w.Resolve(x.Y)
+				if isNilConst(a) {
+					a, bb = bb, a
+				}
+				if isNilConst(bb) && w.sentinelError(a) {
+					b := x.Op.String() == "!="
+					return "", "", "", false, &b
+				}
 			}
 			return x.Op.String(), w.AP(x.X), w.AP(x.Y), false, nil
 		}
